@@ -1,7 +1,10 @@
 package main
 
 import (
+	"bufio"
+	"bytes"
 	"fmt"
+	"io"
 	"reflect"
 	"sort"
 	"strings"
@@ -16,10 +19,15 @@ import (
 
 func init() { register(&profile{id: "C15", num: 15, name: "entrypoints", run: runEntrypoints}) }
 
+// capAbort is set when a call was cut off by a logical step cap that no clause of the running
+// profile is about (C15, C09): the run is then discarded, never judged.
+var capAbort bool
+
 func call(f func() (interface{}, error)) (r callResult) {
 	defer func() {
 		if p := recover(); p != nil {
 			if ce, ok := p.(simrt.CapExceeded); ok {
+				capAbort = true
 				r = callResult{Panic: fmt.Sprintf("step cap exceeded after %d steps", ce.Steps)}
 				return
 			}
@@ -91,9 +99,11 @@ func tokenEnds(toks []lexer.Token) []int {
 
 func runEntrypoints(rc *RunCtx) *Violation {
 	var v *Violation
+	capAbort = false
+	defer func() { capAbort = false }()
 	simrt.RunInline(func() {
 		base := simrt.Depth()
-		simrt.OpBegin(100000000) // no clause depends on it; it only keeps a pathological parse from stalling the batch
+		simrt.OpBegin(20000000) // no clause depends on it; it only keeps a pathological parse from stalling the batch
 		if simrt.Choose(5) == 1 {
 			v = entryLexDefs(rc)
 		} else {
@@ -102,6 +112,10 @@ func runEntrypoints(rc *RunCtx) *Violation {
 		steps, _, _ := simrt.OpEnd(base)
 		rc.agg.SimSteps += steps
 	})
+	if capAbort {
+		rc.agg.Discarded++
+		return nil
+	}
 	return v
 }
 
@@ -195,7 +209,7 @@ func entryLexDefs(rc *RunCtx) *Violation {
 }
 
 func entryParser(rc *RunCtx) *Violation {
-	w := pickWorld()
+	w := pickAnyParser()
 	o, variant := drawBuild(w)
 	delims := runDelims(rc.seed)
 	var p PH
@@ -209,7 +223,7 @@ func entryParser(rc *RunCtx) *Violation {
 	x, dc := drawDoc(w, delims, 6)
 	d := x
 	var fired []string
-	if subBatch != "faultfree" {
+	if subBatch != "faultfree" && !w.verbatim {
 		d, fired = deriveInput(rc, x, nil, allContentFaults)
 	}
 	name := "file.txt"
@@ -269,6 +283,40 @@ func entryParser(rc *RunCtx) *Violation {
 	r2.account(rc)
 	if !sameResult(pivot, viaLexer) {
 		return viol("ParseFromLexer-vs-ParseString", fmt.Sprintf("ParseFromLexer over the parser's own token stream = %s but ParseString = %s", clip(viaLexer.desc(), 500), clip(pivot.desc(), 500)))
+	}
+	// clause 1b: standard-library readers that were partly consumed before being handed in
+	if simrt.Choose(3) == 1 {
+		const skipped = "#!skip: 12 bytes the caller consumed\n"
+		kind := simrt.Choose(6)
+		var rd io.Reader
+		kindName := ""
+		switch kind {
+		case 0:
+			sr := strings.NewReader(skipped + d)
+			io.CopyN(io.Discard, sr, int64(len(skipped)))
+			rd, kindName = sr, "*strings.Reader at a non-zero offset"
+		case 1:
+			br := bytes.NewReader([]byte(skipped + d))
+			io.CopyN(io.Discard, br, int64(len(skipped)))
+			rd, kindName = br, "*bytes.Reader at a non-zero offset"
+		case 2:
+			bb := bytes.NewBufferString(skipped + d)
+			bb.Next(len(skipped))
+			rd, kindName = bb, "*bytes.Buffer after Next"
+		case 3:
+			bf := bufio.NewReaderSize(strings.NewReader(skipped+d), 16)
+			bf.Discard(len(skipped))
+			rd, kindName = bf, "*bufio.Reader after Discard"
+		case 4:
+			rd, kindName = io.NewSectionReader(strings.NewReader(skipped+d+"<<tail outside the section>>"), int64(len(skipped)), int64(len(d))), "*io.SectionReader"
+		case 5:
+			rd, kindName = io.LimitReader(strings.NewReader(d+"<<tail beyond the limit>>"), int64(len(d))), "io.LimitReader"
+		}
+		viaStd := call(func() (interface{}, error) { return p.Parse(name, rd) })
+		if !sameResult(pivot, viaStd) {
+			return viol("Parse-std-reader-vs-ParseString", fmt.Sprintf("Parse over a %s holding exactly the input = %s but ParseString = %s", kindName, clip(viaStd.desc(), 500), clip(pivot.desc(), 500)))
+		}
+		rc.fault("positioned-std-reader")
 	}
 	if o.narrow {
 		rc.probe("slow path forced (definition hides LexString/LexBytes)")
@@ -406,6 +454,11 @@ func entryParser(rc *RunCtx) *Violation {
 				return viol("read-error-wrong-result", fmt.Sprintf("reader failed after %d bytes; Parse returned %s, which is neither an error nor the result for the delivered prefix (%s)", len(prefix), clip(got.desc(), 400), clip(want.desc(), 400)))
 			}
 			rc.probe("read error swallowed: result equals that of the delivered prefix")
+		}
+		// whatever the failed read left behind must not leak into the next call
+		again := call(func() (interface{}, error) { return p.Parse(name, strings.NewReader(d)) })
+		if !sameResult(pivot, again) {
+			return viol("call-after-failed-read", fmt.Sprintf("after a Parse whose reader failed, Parse over the whole input = %s but ParseString = %s", clip(again.desc(), 500), clip(pivot.desc(), 500)))
 		}
 	}
 
